@@ -123,7 +123,7 @@ func check(prop, tier string) int {
 		fmt.Printf("VIOLATION property=%s replay=%s obligation=%s reason=%s%s\n", prop, path, obName, reason, suffix)
 	}
 
-	prog, err := vc.Load("/repo", vc.DefaultPatterns)
+	prog, err := vc.Load(repoRoot(), vc.DefaultPatterns)
 	if err != nil {
 		// the tree does not load (compile error, or a contract no longer matches): fail closed
 		writeEvidence(prop, tier, seed, time.Since(t0).Seconds(), nil, 0, 0, nil, nil, nil, 1, spec, nil)
